@@ -165,6 +165,15 @@ def run_case(case):
                 cands = [("d", e[2], e[3], rng.choice(SHAPES)) for e in ents] + [("p", l, pos, rng.choice(SHAPES)) for l in range(a.nlev)]
                 items.append(rng.choice(cands))
             plans.append((items, rng.choice(["check", "scrub-full", "check-a"])))
+        # a silent corruption in a stripe that also holds a block of a file changed since the last sync
+        # (scrub must still mark the stripe bad; stripes that only differ because of the unsynced file must not be marked)
+        for _ in range(4 if quick else 30):
+            (f, i) = rng.choice(dtargets)
+            pos = f.blocks[i][0]
+            neigh = [e for e in sm[pos] if e[1] == "file" and e[2] is not f and e[4] == BLK and e[2].size > 0]
+            if neigh:
+                g = rng.choice(neigh)[2]
+                plans.append(([("d", f, i, rng.choice(SHAPES)), ("unsynced", g)], "scrub-full"))
         # swaps of two full blocks
         full = [(f, i) for (f, i) in dtargets if (i + 1) * c.blocksize <= f.size]
         for _ in range(4 if quick else 30):
@@ -179,6 +188,8 @@ def run_case(case):
             stripes = {}
             applied = 0
             trivial = False
+            unsynced = None
+            unsynced_pos = set()
             for it in items:
                 if it[0] == "d":
                     _, f, i, sh = it
@@ -208,6 +219,21 @@ def run_case(case):
                         applied += 1
                         exp_par.add((pos, levname(l).encode()))
                         stripes.setdefault(pos, []).append("p")
+                elif it[0] == "unsynced":
+                    g = it[1]
+                    pg = file_path(a, c, g)
+                    undo.save(pg)
+                    st_ = os.lstat(pg)
+                    with open(pg, "r+b") as fh:
+                        old_ = fh.read()
+                        new_ = bytes((b ^ 0xA5) for b in old_)
+                        fh.seek(0)
+                        fh.write(new_)
+                    os.utime(pg, ns=(st_.st_atime_ns, st_.st_mtime_ns + 7_000_000_000))
+                    unsynced = g
+                    for bi, (gpos, gst, _gh) in enumerate(g.blocks):
+                        exp_data.add((gpos, c.disk_name(g.disk), g.sub, bi))
+                        unsynced_pos.add(gpos)
                 else:
                     _, f1, i1, f2, i2 = it
                     undo.save(file_path(a, c, f1))
@@ -243,6 +269,8 @@ def run_case(case):
                 V("sanitizer:" + A.san_key(s), s[:3000])
             od, op, oo = observed_errors(r)
             what = {"items": [(x[0],) + tuple(y.sub if hasattr(y, "sub") else y for y in x[1:]) for x in items], "cmd": [cmd] + args}
+            if unsynced is not None and not any(k_ == "d" for pos_ in stripes for k_ in stripes[pos_]):
+                unsynced = None
             nt.add(repr(what))
             # ---- expectations
             want_data = set(exp_data)
@@ -292,7 +320,7 @@ def run_case(case):
                     V("exit-status-fails-without-error:" + cmdk, "%s: rc=%s err=%s" % (label, r.rc, r.err[-200:].decode("latin-1")), what)
             if cmd == "scrub":
                 bad, nbad, dec = bad_marks(a, variant)
-                want_bad = set(stripes) if covering else set()
+                want_bad = set(stripes) if covering else set()  # stripes holds the silently damaged ones only
                 if bad != want_bad or dec != want_bad or nbad != len(want_bad):
                     V("scrub-bad-marks-wrong:" + cmdk, "%s: status bad=%s has_bad=%s decoded=%s expected=%s" %
                       (label, sorted(bad), nbad, sorted(dec), sorted(want_bad)), what)
